@@ -111,7 +111,15 @@ func (g *gg) node(depth int) *yaml.Node {
 			g.anchor(n)
 			g.open[n] = true
 		}
-		for i, c := 0, g.intn("nitems", 0, 3); i < c; i++ {
+		cnt := g.intn("nitems", 0, 3)
+		if g.intn("bigseq", 0, 11) == 0 {
+			// a long sequence of scalars (anchored collections of every size must be copied per alias)
+			for i, c := 0, g.intn("nbig", 16, 24); i < c; i++ {
+				n.Content = append(n.Content, g.scalar())
+			}
+			cnt = 0
+		}
+		for i := 0; i < cnt; i++ {
 			n.Content = append(n.Content, g.node(depth+1))
 		}
 		delete(g.open, n)
@@ -204,7 +212,16 @@ func (g *gg) mapping(depth int, anchored bool) *yaml.Node {
 	}
 	used := map[string]bool{}
 	merges := 0
-	for i, c := 0, g.intn("nentries", 0, 5); i < c; i++ {
+	nent := g.intn("nentries", 0, 5)
+	if g.intn("bigmap", 0, 11) == 0 {
+		// a mapping of 8-14 scalar entries first
+		for i, c := 0, g.intn("nbigmap", 8, 14); i < c; i++ {
+			k := fmt.Sprintf("w%d", i)
+			used[k] = true
+			n.Content = append(n.Content, doc.StrNode(k), g.scalar())
+		}
+	}
+	for i := 0; i < nent; i++ {
 		if g.intn("merge?", 0, 3) == 0 && depth < 4 {
 			n.Content = append(n.Content, doc.MergeKey(), g.mergeValue(depth))
 			merges++
